@@ -193,6 +193,7 @@ type vfWorld struct {
 	offlineDigest string
 	cacheSynced   map[string]bool
 	agentSim      *vfAgent
+	pendingMods   []string // request modifiers of the step being prepared (precookie:, fwd:, peer:)
 	listenerUp    chan struct{} // closed when the emulated main() received SignerIsReady (the service listener starts then)
 	readySignals  atomic.Int32
 	stdinFile     *os.File
@@ -580,6 +581,7 @@ type vfReq struct {
 	Multi  map[string]string // multipart fields; key "@pubkeyfile" = file content
 	JSON   []byte
 	Cookies map[string]string
+	PreCookies [][2]string // sent before Cookies in the Cookie header (duplicate names allowed)
 	Basic  *[2]string
 	Header map[string]string
 	Peer   string // ip (port added)
@@ -663,6 +665,9 @@ func (w *vfWorld) buildHTTP(r *vfReq) (*http.Request, *vfResp) {
 	if ctype != "" {
 		req.Header.Set("Content-Type", ctype)
 	}
+	for _, pc := range r.PreCookies {
+		req.AddCookie(&http.Cookie{Name: pc[0], Value: pc[1]})
+	}
 	ck := make([]string, 0, len(r.Cookies))
 	for k := range r.Cookies {
 		ck = append(ck, k)
@@ -724,6 +729,25 @@ type vfCall struct {
 
 func (w *vfWorld) prepare(r *vfReq) *vfCall {
 	w.res.Requests++
+	for _, m := range w.pendingMods {
+		switch {
+		case strings.HasPrefix(m, "precookie:"):
+			// another session's cookie travels first in the same Cookie header
+			if v := w.session(m[len("precookie:"):]).Cookies[authCookieName]; v != "" && r.Cookies[authCookieName] != "" && v != r.Cookies[authCookieName] {
+				r.PreCookies = append(r.PreCookies, [2]string{authCookieName, v})
+				w.probe("request-with-two-auth-cookies")
+			}
+		case strings.HasPrefix(m, "fwd:"):
+			if r.Header == nil {
+				r.Header = map[string]string{}
+			}
+			r.Header["X-Forwarded-For"] = m[len("fwd:"):]
+			r.Header["X-Real-Ip"] = m[len("fwd:"):]
+		case strings.HasPrefix(m, "peer:"):
+			r.Peer = m[len("peer:"):]
+		}
+	}
+	w.pendingMods = nil
 	if w.primary != nil && (w.sched == nil || !w.sched.concur) {
 		w.primary.takeWrites() // writes observed after this point belong to the request (effect attribution)
 	}
